@@ -160,6 +160,11 @@ func (l *Lexer) Split() []*Token {
 			tokStart = i + 1
 		case '"', '\'':
 			if !strStart {
+				curr = l.Query[tokStart : tokStart+min(tokLen, l.Length-tokStart)]
+				if token := buildToken(curr, tokStartPos); token != nil {
+					ret = append(ret, token)
+				}
+				tokLen = 0
 				strStart = true
 				strStartChar = char
 				tokStartPos = i
@@ -174,11 +179,18 @@ func (l *Lexer) Split() []*Token {
 				}
 				ret = append(ret, token)
 				tokLen = 0
+				tokStartPos = i + 1
+				tokStart = i + 1
 			} else {
 				tokLen++
 			}
 		case '`':
 			if !strStart {
+				curr = l.Query[tokStart : tokStart+min(tokLen, l.Length-tokStart)]
+				if token := buildToken(curr, tokStartPos); token != nil {
+					ret = append(ret, token)
+				}
+				tokLen = 0
 				strStart = true
 				strStartChar = char
 				tokStartPos = i
@@ -193,6 +205,8 @@ func (l *Lexer) Split() []*Token {
 				}
 				ret = append(ret, token)
 				tokLen = 0
+				tokStartPos = i + 1
+				tokStart = i + 1
 			} else {
 				tokLen++
 			}
